@@ -118,6 +118,7 @@ func (e ecfg) tag() string {
 }
 
 type c16 struct {
+	tier string
 	o *vcoq.Out
 	r *vcoq.Rand
 	g *pairGen
@@ -192,11 +193,14 @@ func (g *c16) pair(x, y proto.Message, cfgs []ecfg, combs [][]ecfg, tags []strin
 	peStrip := [2]bool{proto.Equal(sx, sy), proto.Equal(sy, sx)}
 	var obs []string
 	var jobs []any
+	guard := optGuard(x0) && optGuard(y0) // of the trees as emitted
 	for _, e := range cfgs {
 		v := four(e.real(), x, y, x2, y2)
 		obs = append(obs, vcoq.App("OEq", e.coq(), v.coq()))
 		jobs = append(jobs, map[string]any{"cmp": e.js(), "xy_yx_xx_yy": v})
 		tags = append(tags, e.tag())
+		tags = append(tags, branchTags(e, x2, y2)...)
+		guard = guard && e.guard()
 	}
 	for i, es := range combs {
 		isOr := i%2 == 1
@@ -206,6 +210,7 @@ func (g *c16) pair(x, y proto.Message, cfgs []ecfg, combs [][]ecfg, tags []strin
 		var ej []any
 		for k, e := range es {
 			ms[k] = e.real()
+			guard = guard && e.guard()
 			ec[k] = e.coq()
 			cc[k] = four(ms[k], x, y, x2, y2).coq()
 			ej = append(ej, e.js())
@@ -238,7 +243,20 @@ func (g *c16) pair(x, y proto.Message, cfgs []ecfg, combs [][]ecfg, tags []strin
 	} else {
 		tags = append(tags, "pair:different")
 	}
-	g.o.Add(vcoq.Case{Coq: coq, JSON: js, Key: coq, NonTrivial: nontrivial, Tags: tags})
+	tags = append(tags, guardTag(guard))
+	g.o.Add(vcoq.Case{Coq: kg(guard, coq), JSON: js, Key: coq, NonTrivial: nontrivial, Tags: dedup(tags)})
+}
+
+func dedup(tags []string) []string {
+	seen := map[string]bool{}
+	var out []string
+	for _, t := range tags {
+		if !seen[t] {
+			seen[t] = true
+			out = append(out, t)
+		}
+	}
+	return out
 }
 
 func sameOrNaN(a, b proto.Message) bool {
@@ -372,6 +390,23 @@ func (g *c16) corners() {
 			g.pair(dbl(a), dbl(b), cfgs, nil, []string{"mut:special-floats"}, true)
 		}
 	}
+	// floats on which float64 arithmetic rounds, overflows or is subnormal (outside the guard of the ideal
+	// comparison; the model is Flocq binary64): decimal fractions, neighbours, the ends of the range
+	rounding := []float64{0.1, 0.2, 0.30000000000000004, 5e-324, 1.5e-323, 9007199254740992, -1, math.MaxFloat64, -math.MaxFloat64}
+	if g.tier == "thorough" {
+		rounding = append(rounding, 0.3, 1.0/3, 2.2250738585072014e-308, 9007199254740994, -0.1, 1e-9, 1e308, 16777217, 0)
+	}
+	for _, a := range rounding {
+		for _, b := range rounding {
+			cfgs := []ecfg{{vs: []vcfg{{kind: "float", a: 0, b: 0.1}}}, {vs: []vcfg{{kind: "float", a: 0.1, b: 0}}},
+				{vs: []vcfg{{kind: "float", a: 1.5, b: 0}}}, {vs: []vcfg{{kind: "float", a: 0, b: 9007199254740992}}},
+				{vs: []vcfg{{kind: "float", a: -0.5, b: -1}}}, {vs: []vcfg{{kind: "float", a: 2, b: math.MaxFloat64}}}}
+			if g.tier == "thorough" {
+				cfgs = append(cfgs, ecfg{}, ecfg{vs: []vcfg{{kind: "float", a: 1e-9, b: 1e-12}}}, ecfg{vs: []vcfg{{kind: "float", a: 0.5, b: 5e-324}}})
+			}
+			g.pair(dbl(a), dbl(b), cfgs, nil, []string{"mut:rounding-floats"}, true)
+		}
+	}
 	dur := func(s int64, n int32) proto.Message {
 		return &testproto.WellKnown{DefaultDuration: &durationpb.Duration{Seconds: s, Nanos: n}}
 	}
@@ -388,7 +423,7 @@ func (g *c16) corners() {
 				nb = int32([]int{1, -1, 999999999, -854775808, -854775809}[g.r.Intn(5)])
 			}
 			cfgs := []ecfg{{}, {vs: []vcfg{{kind: "dur", d: 0}}}, {vs: []vcfg{{kind: "dur", d: 1000000000}}},
-				{vs: []vcfg{{kind: "dur", d: math.MaxInt64 - 1}}}}
+				{vs: []vcfg{{kind: "dur", d: math.MaxInt64 - 1}}}, {vs: []vcfg{{kind: "dur", d: math.MaxInt64}}}}
 			g.pair(dur(a, na), dur(b, nb), cfgs, nil, []string{"mut:extreme-durations"}, true)
 		}
 	}
@@ -403,15 +438,30 @@ func (g *c16) corners() {
 	ts := func(s int64, n int32) proto.Message {
 		return &testproto.WellKnown{DefaultTimestamp: &timestamppb.Timestamp{Seconds: s, Nanos: n}}
 	}
-	tsecs := []int64{0, 1, -1, 253402300799, -62135596800, 9223372036, -9223372037, 1 << 59, -(1 << 59), 1 << 62, math.MaxInt64, math.MinInt64}
+	tsecs := []int64{0, 1, -1, 253402300799, -62135596800, 9223372036, -9223372037, 10000000000, -(1 << 59), 1 << 60, 1<<60 + 1, math.MaxInt64, math.MinInt64,
+		math.MaxInt64 - 62135596800, math.MaxInt64 - 62135596799}
+	if g.tier == "thorough" {
+		tsecs = append(tsecs, 9223372037, 1<<59, 1<<62)
+	}
 	for _, a := range tsecs {
 		for _, b := range tsecs {
 			na := int32([]int{0, 0, 1, 999999999, -1, 1000000000, math.MaxInt32, math.MinInt32}[g.r.Intn(8)])
 			nb := int32([]int{0, 0, 1, 999999999, -1, 1000000000, math.MaxInt32, math.MinInt32}[g.r.Intn(8)])
 			cfgs := []ecfg{{}, {vs: []vcfg{{kind: "time", d: 0}}}, {vs: []vcfg{{kind: "time", d: 1000000000}}},
-				{vs: []vcfg{{kind: "time", d: 3000000000}}}, {vs: []vcfg{{kind: "time", d: math.MaxInt64 - 1}}}}
+				{vs: []vcfg{{kind: "time", d: 3000000000}}}, {vs: []vcfg{{kind: "time", d: math.MaxInt64 - 1}}},
+				{vs: []vcfg{{kind: "time", d: math.MaxInt64}}}}
 			g.pair(ts(a, na), ts(b, nb), cfgs, nil, []string{"mut:extreme-timestamps"}, true)
 		}
+	}
+	// exactly the largest Duration apart, one nanosecond more, one less (Sub saturates / Add gives the time back)
+	edge := [][2]proto.Message{
+		{ts(0, 0), ts(9223372036, 854775807)}, {ts(0, 0), ts(9223372036, 854775806)}, {ts(0, 0), ts(9223372036, 854775808)},
+		{ts(-9223372036, -854775807), ts(0, 0)}, {ts(-9223372036, -854775808), ts(0, 0)}, {ts(-4611686018, -427387904), ts(4611686018, 427387903)},
+		{ts(-4611686018, -427387904), ts(4611686018, 427387904)}, {ts(1, 5), ts(9223372037, 854775812)}, {ts(1, 5), ts(9223372037, 854775813)},
+	}
+	for _, p := range edge {
+		cfgs := []ecfg{{}, {vs: []vcfg{{kind: "time", d: math.MaxInt64}}}, {vs: []vcfg{{kind: "time", d: math.MaxInt64 - 1}}}, {vs: []vcfg{{kind: "time", d: 0}}}}
+		g.pair(p[0], p[1], cfgs, nil, []string{"mut:max-duration-apart"}, true)
 	}
 	// unknown fields: every pair of a fixed family of raw-field sequences (one number repeated, a
 	// second number interleaved), at the root and inside a sub-message
@@ -509,8 +559,12 @@ func (g *c16) stream(e ecfg, seed proto.Message, writes []proto.Message) {
 		wc[i] = coqMsg(w)
 	}
 	coq := vcoq.App("KStream", e.coq(), coqOpt(seed), vcoq.List(wc), vcoq.List(ec))
-	g.o.Add(vcoq.Case{Coq: coq, JSON: js, Key: coq, NonTrivial: len(writes) > 1,
-		Tags: []string{"stream", "stream:" + e.tag(), fmt.Sprintf("stream-suppressed:%d", min(len(writes)+btoi(seed != nil)-len(emitted), 4))}})
+	guard := e.guard() && optGuard(seed)
+	for _, w := range writes {
+		guard = guard && optGuard(w)
+	}
+	g.o.Add(vcoq.Case{Coq: kg(guard, coq), JSON: js, Key: coq, NonTrivial: len(writes) > 1,
+		Tags: []string{"stream", "stream:" + e.tag(), fmt.Sprintf("stream-suppressed:%d", min(len(writes)+btoi(seed != nil)-len(emitted), 4)), guardTag(guard)}})
 }
 
 // collStream: a Collection with an equivalence holding item "a"; the subscriber is seeded with it and
@@ -573,8 +627,13 @@ func (g *c16) collStream(e ecfg, seed proto.Message, writes []proto.Message) {
 		wc[i] = coqMsg(w)
 	}
 	coq := vcoq.App("KCollStream", e.coq(), coqMsg(seed), vcoq.List(wc), vcoq.List(ec))
-	g.o.Add(vcoq.Case{Coq: coq, JSON: js, Key: coq, NonTrivial: len(writes) > 1,
-		Tags: []string{"collection-stream", "collection-stream:" + e.tag()}})
+	guard := e.guard() && optGuard(seed)
+	for _, w := range writes {
+		guard = guard && optGuard(w)
+	}
+	g.o.Add(vcoq.Case{Coq: kg(guard, coq), JSON: js, Key: coq, NonTrivial: len(writes) > 1,
+		Tags: []string{"collection-stream", "collection-stream:" + e.tag(),
+			fmt.Sprintf("collection-stream-suppressed:%d", min(len(writes)+1-len(emitted), 4)), guardTag(guard)}})
 }
 
 func btoi(b bool) int {
@@ -667,15 +726,18 @@ func genC16(o *vcoq.Out, r *vcoq.Rand, tier string) error {
 	o.CaseType = "c16case"
 	o.Judge = "judge"
 	o.Shard = 40
-	o.Rule = "pairs: a random TestAllTypes (60%) or trait message (PullBrightnessResponse, PullEnergyLevelResponse, ElectricMode) cloned twice, one clone mutated in 0-3 places (kinds in the mut:* tags), floats dyadic, each pair judged under the default comparer, two FloatValueApprox, two TimeValueWithin, two DurationValueWithin with tolerances below/at/above the injected difference, Equal of all three, Equal(ValueOr), And and Or of Equal comparers, on (x,y), (y,x), (x,x), (y,y); plus exhaustive grids: nil / typed nil / 13 message types pairwise, 8x8 special floats, 18x18 extreme durations, 12x12 extreme timestamps, 22x22 unknown-field sequences (a repeated field number, a second number interleaved), DurationValueWithinP on a 10x10x3 grid; streams: resource.Value (and, for a quarter, a one-item resource.Collection) with WithNoDuplicates or a tolerance equivalence, optional seed, 1-8 drifting writes, backpressured Pull. Non-trivial: at least one mutation applied / grid pair / stream with >= 2 writes. Distinct by the full case term."
-	g := &c16{o: o, r: r, g: &pairGen{r: r}}
+	o.Rule = "pairs: a random TestAllTypes (60%) or trait message (PullBrightnessResponse, PullEnergyLevelResponse, ElectricMode) cloned twice, one clone mutated in 0-3 places (kinds in the mut:* tags), floats dyadic, each pair judged under the default comparer, two FloatValueApprox, two TimeValueWithin, two DurationValueWithin with tolerances below/at/above the injected difference, Equal of all three, Equal(ValueOr), And and Or of Equal comparers, on (x,y), (y,x), (x,x), (y,y); plus exhaustive grids: nil / typed nil / 13 message types pairwise, 8x8 special floats, 9x9 floats on which float64 arithmetic rounds / overflows / is subnormal (18x18 in thorough), 11x11 negative and mixed-sign dyadic floats x 7 fraction/margin configurations (singular, list, float32 and map values), 18x18 extreme durations and 15x15 extreme timestamps incl. tolerance math.MaxInt64, pairs exactly MaxInt64 ns apart +-1, tolerances on map values and list elements only, maps of equal size with different keys, change_time inside / outside a Change and a Change at the top, negative tolerances, 22x22 unknown-field sequences, DurationValueWithinP on a 10x10x3 grid; streams: resource.Value with WithNoDuplicates or a tolerance equivalence, optional seed, 1-8 drifting writes, backpressured Pull (a fifth also through WithReadPaths over top-level fields incl. the empty mask, with writes that change only hidden fields); one-item and whole resource.Collections (up to 3 ids, add / update / delete / re-add, WithInclude(default_double >= threshold), WithUpdatesOnly, read masks, Change messages) with every delivered change. The guard computed by the generator is checked against the judge's (KG). Non-trivial: at least one mutation applied / grid pair / stream or collection with >= 2 writes. Distinct by the full case term."
+	g := &c16{o: o, r: r, g: &pairGen{r: r}, tier: tier}
 	scale := 1
 	if tier == "thorough" {
 		scale = 12
 	}
 	g.nilAndTypes()
 	g.corners()
-	g.randomPairs(420 * scale)
-	g.streams(260 * scale)
+	g.randomPairs(300 * scale)
+	g.streams(200 * scale)
+	g.collections(100 * scale)
+	g.moreCorners()
+	g.masked(60 * scale)
 	return nil
 }
